@@ -80,7 +80,7 @@ def _no_continue(stmts):
 
 def main():
     args = parse_args("C15"); ck = Check("C15", args.tier); thorough = args.tier == "thorough"
-    symcore.Explorer.incremental = True
+    symcore.Explorer.incremental = True; _numba_cache()
     import ImageD11.sinograms.properties as PR
     ck.encoded("ImageD11/sinograms/properties.py:numbalabelNd (py_func, loop step)", "ImageD11/sinograms/properties.py:get_clean_labels (py_func)", "ImageD11/sinograms/properties.py:find_ND_labels",
                "ImageD11/sinograms/properties.py:numbapkmerge (py_func)", "ImageD11/sinograms/properties.py:n_pk2d (py_func)", "ImageD11/sinograms/properties.py:pks_table.pk2dmerge (arithmetic mirrored from its source)")
@@ -286,6 +286,11 @@ def uf_components(I, J, n):
     for a, b in zip(I, J): ra, rb = find(a), find(b); par[max(ra, rb)] = min(ra, rb)
     roots = sorted(set(find(x) for x in range(n))); return [roots.index(find(x)) for x in range(n)], len(roots)
 _SUBMEMO = {}
+_NCACHE = []
+def _numba_cache():
+    """one numba cache directory per check run, created in the parent before workers fork (a worker's own scratch directories would never be removed)"""
+    if not _NCACHE: _NCACHE.append(common.scratch("verif_numba_"))
+    os.makedirs(_NCACHE[0], exist_ok=True); return _NCACHE[0]
 def _sub(fn):
     """run a confirmation family on the real (jitted) kernels in a subprocess: a non-terminating sweep must not hang the check (memoised: one run per family and process)"""
     if fn not in _SUBMEMO: _SUBMEMO[fn] = _sub1(fn)
@@ -294,7 +299,7 @@ def _sub1(fn):
     import subprocess
     code = "import sys; sys.path.insert(0, %r); sys.path.insert(0, %r); sys.path.insert(0, %r)\nimport C15, ImageD11.sinograms.properties as PR\nr = getattr(C15, %r)(PR)\nprint('RESULT', r)" % (
         os.path.join(common.VERIF, "lib"), os.path.join(common.VERIF, "props"), common.REPO, fn)
-    try: r = subprocess.run([sys.executable, "-c", code], capture_output=True, text=True, timeout=240, env=dict(os.environ, NUMBA_CACHE_DIR=common.scratch("verif_numba_")))
+    try: r = subprocess.run([sys.executable, "-c", code], capture_output=True, text=True, timeout=240, env=dict(os.environ, NUMBA_CACHE_DIR=_numba_cache()))
     except subprocess.TimeoutExpired: return "the real kernels did not finish within 240 s on the confirmation family (non-terminating sweep)"
     for line in r.stdout.split("\n"):
         if line.startswith("RESULT "): return None if line[7:] == "None" else line[7:]
